@@ -33,7 +33,7 @@ def main():
             if ok:
                 print('replay passes on this tree'); sys.exit(0)
             print('VIOLATION property=C14 replay=%s' % a.file); print('  ' + detail); sys.exit(1)
-        msgs, sig = runner.replay_failure(w['property'], plans.PLANS[w['property']], w['spec'], w['cfg'], w['case'], times=1)
+        msgs, sig = runner.replay_failure(w['property'], plans.PLANS[w['property']], w['spec'], w['cfg'], w['case'], times=1, fault=w.get('fault'))
         if msgs[0] is None:
             print('replay passes on this tree'); sys.exit(0)
         print('VIOLATION property=%s replay=%s' % (w['property'], a.file)); print('  ' + msgs[0]); sys.exit(1)
